@@ -128,18 +128,20 @@ def surgery_compare(drv, har, scripts):
     return list(zip(cut, exp, impl))
 
 
-def surgery_part(rep, tier, rng, drv, bad):
+def surgery_part(rep, tier, rng, drv, bad, enums=None):
     har = common.build_harness("asan", "surgery")
     corpus = [l.strip() for l in open(os.path.join(common.VERIF, "corpus", "C15", "surgery.txt")) if l.strip() and not l.startswith("#")] \
         if os.path.exists(os.path.join(common.VERIF, "corpus", "C15", "surgery.txt")) else []
     scripts = corpus + [gen_script(rng) for _ in range(1500 if tier == "quick" else 60000)]
+    if enums:
+        scripts += [gen_emph_script(rng, enums) for _ in range(800 if tier == "quick" else 30000)]
     res = surgery_compare(drv, har, scripts)
     hist = collections.Counter()
     nontriv = set()
     for sc, (cut, exp, impl) in zip(scripts, res):
         ops = cut.split(" ; ")[1:]
         for o in ops: hist[o.split()[0]] += 1
-        if any(o.split()[0] in ("PG", "SP", "SC", "PR", "PL") for o in ops[1:]): nontriv.add(cut)
+        if any(o.split()[0] in ("PG", "SP", "SC", "PR", "PL", "EM") for o in ops[1:]): nontriv.add(cut)
         if exp != impl and links_ok(exp) and not links_ok(impl):
             bad.append((b"", cut, "surgery-links-broken", "an operation script on which the model keeps next/prev mutually consistent leaves token.c with a token whose "
                         "neighbour does not point back: implementation heap %s" % impl[:300]))
@@ -247,12 +249,51 @@ def matcher_part(rep, tier, rng, drv, bad):
     rep.cov["matcher_grafts"] = copies
     return len(scripts)
 
+# ---- mmd.c:pair_emphasis_tokens on the heap model (operation EM of the surgery scripts)
+
+EMPH_NAMES = ["STAR", "UL", "STRONG_START", "STRONG_STOP", "EMPH_START", "EMPH_STOP", "PAIR_STRONG", "PAIR_EMPH", "PAIR_BACKTICK", "PAIR_MATH"]
+
+
+def gen_emph_script(rng, v):
+    """a chain of * _ and text tokens with the mates the pair matcher would leave (well nested, equal kinds; sometimes odd),
+    or runs of adjacent double / triple markers around text (strong emphasis), then pair_emphasis_tokens on the chain"""
+    K = " ".join(str(v[n]) for n in EMPH_NAMES)
+    STAR, UL, TXT = v["STAR"], v["UL"], v["TEXT_PLAIN"]
+    ops, pos, kinds, mates = [], 0, [], []
+    def tok(t, ln, gap=0):
+        nonlocal pos
+        ops.append("N %d %d %d" % (t, pos, ln)); pos += ln + gap; kinds.append(t); return len(kinds)
+    if rng.random() < 0.5:
+        for _ in range(rng.randint(2, 24)):
+            t = rng.choice([STAR, STAR, UL, TXT, TXT, v["PAIR_BACKTICK"] if rng.random() < 0.05 else TXT])
+            tok(t, 1 if t in (STAR, UL) else rng.choice([1, 2, 3]), 0 if rng.random() < 0.7 else 1)
+        stack = []
+        for i, t in enumerate(kinds, 1):
+            if t in (STAR, UL):
+                if stack and kinds[stack[-1] - 1] == t and rng.random() < 0.6: mates.append((stack.pop(), i))
+                elif rng.random() < 0.7: stack.append(i)
+        if rng.random() < 0.1: mates.append((rng.randint(1, len(kinds)), rng.randint(1, len(kinds))))
+    else:
+        for _ in range(rng.randint(1, 4)):
+            t = rng.choice([STAR, UL]); depth = rng.choice([1, 2, 2, 3])
+            opens = [tok(t, 1) for _ in range(depth)]
+            if rng.random() < 0.2: pos += 1
+            tok(TXT, rng.randint(1, 3))
+            if rng.random() < 0.3:
+                t2 = rng.choice([STAR, UL]); o = tok(t2, 1); tok(TXT, 1); c = tok(t2, 1); mates.append((o, c))
+            closes = [tok(t, 1) for _ in range(depth)]
+            mates += list(zip(opens, reversed(closes)))
+            if rng.random() < 0.5: tok(TXT, 1)
+    ops += ["A 1 %d" % i for i in range(2, len(kinds) + 1)] + ["M %d %d" % m for m in mates] + ["EM 1 " + K]
+    return "- ; " + " ; ".join(ops)
+
 
 def run(rep, tier, seed):
     rep.cov["trusted_base"] = TRUSTED
     tr_err = None
+    enum_values = None
     try:
-        tr_enums.main()
+        enum_values = tr_enums.main()[0]
     except TranslateError as e:
         tr_err = str(e)
     res = common.coq_prove("Properties_C15") if not tr_err else dict(ok=False, theorems=["enum_relations"], failed=["translator: " + tr_err], assumptions={}, output=tr_err)
@@ -284,7 +325,7 @@ def run(rep, tier, seed):
         if v != "1":
             for k in classify(dump, d):
                 bad.append((d, c, k, "token tree %s violates the checker clause '%s'" % (stage, k)))
-    nsurg = surgery_part(rep, tier, rng, drv, bad)
+    nsurg = surgery_part(rep, tier, rng, drv, bad, enum_values)
     nsurg += matcher_part(rep, tier, rng, drv, bad)
     sel = list(range(len(docs))) if tier == "quick" else list(range(0, len(docs), 3))
     contracts_part(rep, [docs[i] for i in sel], [cases[i] for i in sel], bad)
